@@ -104,6 +104,7 @@ package retry
 //@   ensures inv: validB(b)
 //@   ensures budget: result == nil ==> !(old(b.maxSleep) > 0 && old(b.totalSleep) - old(b.excludedSleep) >= old(b.maxSleep))
 //@   ensures step_range: result == nil ==> 0 <= b.totalSleep - old(b.totalSleep)
+//@   ensures step_kind: result == nil ==> b.backoffTimes[cfg.name] == old(b.backoffTimes[cfg.name]) + 1
 
 //@ func (b *Backoffer) BackoffWithMaxSleepTxnLockFast
 //@   prop C20
@@ -170,3 +171,6 @@ package retry
 //@ func NewNoopBackoff
 //@   prop C20
 //@   ensures valid: result != nil && validB(result) && result.noop
+
+// the name under which stale-command back-offs are accounted (for contracts of other packages)
+//@ spec func staleCmdKind() string { return BoStaleCmd.name }
